@@ -7,6 +7,8 @@ ResetInserter / EnableInserter / DomainRenamer. Everything is derived from the r
 from amaranth.hdl import (Signal, Module, Elaboratable, ClockDomain, ResetInserter, EnableInserter,
                           DomainRenamer, Fragment, unsigned)
 from amaranth.hdl import _ast as A
+from amaranth.hdl import Const
+from amaranth.hdl._mem import MemoryInstance
 
 from . import gen_expr, gen_prog
 from .common import ser_value
@@ -15,23 +17,29 @@ DOMS = ["sync", "d1", "d2"]
 
 
 class Leaf(Elaboratable):
-    def __init__(self, items):
+    def __init__(self, items, mems=()):
         self.items = items
+        self.mems = mems
 
     def elaborate(self, platform):
         m = Module()
         gen_prog.build(m, self.items)
+        for k, mem in enumerate(self.mems):
+            m.submodules[f"mem{k}"] = mem
         return m
 
 
 class Node(Elaboratable):
-    def __init__(self, children, items=()):
+    def __init__(self, children, items=(), mems=()):
         self.children = children
         self.items = items
+        self.mems = mems
 
     def elaborate(self, platform):
         m = Module()
         gen_prog.build(m, self.items)
+        for k, mem in enumerate(self.mems):
+            m.submodules[f"mem{k}"] = mem
         for k, c in enumerate(self.children):
             m.submodules[f"c{k}"] = c
         return m
@@ -41,21 +49,60 @@ class Design:
     pass
 
 
-def gen_design(rng, hist):
+def gen_domain(rng, hist, name):
+    """a fresh ClockDomain object with a random edge / reset style"""
+    kind = rng.choice(["none", "sync", "sync", "async"])
+    cd = ClockDomain(name, clk_edge=rng.choice(["pos", "neg"]), reset_less=(kind == "none"),
+                     async_reset=(kind == "async"))
+    hist[f"domain:{kind}:{cd.clk_edge}"] = hist.get(f"domain:{kind}:{cd.clk_edge}", 0) + 1
+    return cd
+
+
+RENAME_SHAPES_2 = ["swap", "swap", "identity+move", "move+identity"]
+RENAME_SHAPES_3 = ["swap", "swap", "chain:source-first", "chain:source-first", "chain:target-first", "rotation", "rotation",
+                   "merge", "swap+move"]
+
+
+def gen_rename_map(rng, names, hist, overlapping=False):
+    """a DomainRenamer map with several entries, as the list of its (source, target) items in dictionary order.
+    In a swap, a source-first chain and a rotation some target is also a source listed *later*: the entries must act at
+    once, not one after the other. The other shapes (target-first chain, merge, identity entries) are controls."""
+    shape = rng.choice(RENAME_SHAPES_2 if len(names) == 2 else RENAME_SHAPES_3)
+    if overlapping:
+        shape = rng.choice(["swap"] if len(names) == 2 else ["swap", "chain:source-first", "rotation", "swap+move"])
+    a, b, *c = rng.sample(names, len(names))
+    c = c[0] if c else None
+    mp = {"swap": [(a, b), (b, a)], "identity+move": [(a, a), (b, a)], "move+identity": [(a, b), (b, b)],
+          "chain:source-first": [(a, b), (b, c)], "chain:target-first": [(b, c), (a, b)],
+          "rotation": [(a, b), (b, c), (c, a)], "merge": [(a, c), (b, c)], "swap+move": [(a, b), (b, a), (c, a)]}[shape]
+    hist["rename_map:" + shape] = hist.get("rename_map:" + shape, 0) + 1
+    return mp
+
+
+def gen_design(rng, hist, *, rename_maps=False, memories=False, attach=True):
+    """`rename_maps`: DomainRenamer wrappers may carry maps with several entries (swaps, chains, rotations).
+    `memories`: leaves may hold a `lib.memory.Memory` (one write port, 1-2 read ports, any domains) as a submodule.
+    `attach=False`: only the wrapped module tree `D.core` is generated; the caller makes the clock domains and the top
+    level (`attach_top`), possibly several times for the same tree. The defaults draw exactly the random numbers the
+    generator drew before these options existed (C08 shares it)."""
     D = Design()
     ndom = rng.randint(1, 3)
     D.domnames = DOMS[:ndom]
     D.cds = []
-    for name in D.domnames:
-        kind = rng.choice(["none", "sync", "sync", "async"])
-        cd = ClockDomain(name, clk_edge=rng.choice(["pos", "neg"]), reset_less=(kind == "none"),
-                         async_reset=(kind == "async"))
-        D.cds.append(cd)
-        hist[f"domain:{kind}:{cd.clk_edge}"] = hist.get(f"domain:{kind}:{cd.clk_edge}", 0) + 1
+    if attach:
+        for name in D.domnames:
+            D.cds.append(gen_domain(rng, hist, name))
     D.inputs = [Signal(gen_expr.rand_shape(rng, 4), name=f"i{k}") for k in range(rng.randint(2, 3))]
-    D.ctls = [Signal(unsigned(1 if rng.random() < 0.85 else 2), name=f"k{k}") for k in range(3)]
-    D.targets = []          # whole state signals
+    has_mem = memories and rng.random() < 0.6
+    # with memories every control is one bit wide: `EnableInserter` gates a memory port's enable with the *truth value* of
+    # the control, the statements with `control == 1`; the two only agree on one-bit controls
+    D.ctls = [Signal(unsigned(1 if (has_mem or rng.random() < 0.85) else 2), name=f"k{k}") for k in range(3)]
+    D.targets = []          # whole state signals (and memory rows: `MemoryData._Row` values)
     D.leaves = []           # (items, wrappers innermost-first, comb target sigs, sync target values)
+    D.rows = {}             # id(row value) -> (MemoryData, index)
+    D.force_rl = set()      # ids of observables no reset touches whatever their `reset_less` says: rows, read-port data
+    D.names = {}            # id -> display name for rows
+    D.bias1 = set()         # ids of one-bit inputs that should mostly be 1 (port enables)
 
     nleaf = [0]
 
@@ -98,14 +145,100 @@ def gen_design(rng, hist):
                 tg_by_dom[extra] = Fresh(more)
         items = gen_prog.gen_items(rng, g_comb, g_sync, None, None, rng.randint(1, 2), hist,
                                    allow_fsm=False, n=rng.randint(2, 4), tg_by_dom=tg_by_dom)
-        return items
+        mem_items, mems = [], []
+        if has_mem and rng.random() < 0.55:
+            more, mem_items, mems = mk_memory(k)
+            items = items + more
+        return {"items": items, "mem_items": mem_items, "mems": mems}
 
-    def wrap(elab, path_wrappers):
+    def mk_memory(k):
+        """a memory inside leaf `k`: one write port and 1-2 read ports (synchronous, not transparent, or asynchronous),
+        each in any domain of the design. Returns (DSL items of the leaf that drive port inputs, the memory *as the
+        property reads it* - an array of rows; a write port is a process of its domain that replaces the addressed row
+        when enabled, a synchronous read port a process of its domain that captures the addressed row when enabled,
+        both reading the values before the edge - written as program items over the rows, the memory itself)."""
+        from amaranth.lib.memory import Memory
+        depth, w = rng.choice([2, 2, 4]), rng.randint(1, 5)
+        init = [rng.getrandbits(w) for _ in range(rng.choice([0, depth, depth]))]
+        mem = Memory(shape=unsigned(w), depth=depth, init=init)
+        wdom = rng.choice(D.domnames)
+        others = [d for d in D.domnames if d != wdom]
+        wp = mem.write_port(domain=wdom)
+        rps = []
+        for _ in range(rng.choice([1, 1, 2])):
+            r = rng.random()
+            rdom = "comb" if r < 0.2 else (rng.choice(others) if others and r < 0.8 else rng.choice(D.domnames))
+            rps.append(mem.read_port(domain=rdom))
+        hist[f"memory:depth{depth}"] = hist.get(f"memory:depth{depth}", 0) + 1
+        for pn, port in [("w", wp)] + [(f"r{j}", rp) for j, rp in enumerate(rps)]:
+            for fn in ("addr", "data", "en"):
+                if isinstance(getattr(port, fn), Signal):
+                    D.names[id(getattr(port, fn))] = f"mem{k}.{pn}.{fn}"
+        rows = [mem.data[i] for i in range(depth)]
+        for i, row in enumerate(rows):
+            D.rows[id(row)] = (mem.data, i)
+            D.names[id(row)] = f"mem{k}[{i}]"
+            D.force_rl.add(id(row))
+        D.targets += rows
+        dsl, model = [], []
+        n_in = [0]
+
+        def feed(sig, dom, en):
+            """a port address: an input of the design, or (FIFO-like) a pointer register of the port's domain that
+            advances when the port is enabled"""
+            if dom != "comb" and rng.random() < 0.5:
+                ptr = Signal(unsigned(len(sig)), name=f"ptr{k}_{n_in[0]}", init=rng.randrange(depth))
+                n_in[0] += 1
+                D.targets += [ptr, sig]
+                dsl.append(("if", [(en, [("assign", dom, ptr, ptr + 1)])], None))
+                dsl.append(("assign", "comb", sig, ptr))
+                hist["memory:pointer_register_address"] = hist.get("memory:pointer_register_address", 0) + 1
+            else:
+                D.inputs.append(sig)
+        D.inputs += [wp.data, wp.en]
+        D.bias1.add(id(wp.en))
+        feed(wp.addr, wdom, wp.en)
+        model.append(("switch", wp.addr, [((i,), [("if", [(wp.en, [("assign", wdom, rows[i], wp.data)])], None)])
+                                          for i in range(depth)]))
+        for rp in rps:
+            D.targets.append(rp.data)
+            D.force_rl.add(id(rp.data))
+            if rp.domain == "comb":
+                D.inputs.append(rp.addr)
+                model.append(("switch", rp.addr, [((i,), [("assign", "comb", rp.data, rows[i])]) for i in range(depth)]))
+                hist["memory:read_port:comb"] = hist.get("memory:read_port:comb", 0) + 1
+            else:
+                D.inputs.append(rp.en)
+                D.bias1.add(id(rp.en))
+                feed(rp.addr, rp.domain, rp.en)
+                model.append(("if", [(rp.en, [("switch", rp.addr, [((i,), [("assign", rp.domain, rp.data, rows[i])])
+                                                                   for i in range(depth)])])], None))
+                key = "memory:read_port:" + ("same_domain_as_write" if rp.domain == wdom else "other_domain")
+                hist[key] = hist.get(key, 0) + 1
+        return dsl, model, [mem]
+
+    def wrap(elab, below):
         """maybe wrap `elab`; returns (wrapped, wrappers applied here innermost-first)"""
         ws = []
-        for _ in range(rng.choice([0, 0, 1, 1, 2, 3])):
+        n_wrappers = rng.choice([0, 0, 1, 1, 2, 3])
+        # a renamer whose map needs simultaneous renaming, around a module tree with a memory: innermost or outermost
+        extra = (rename_maps and len(D.domnames) > 1 and any(leaf["mems"] for leaf in below) and rng.random() < 0.5)
+        extra_at = rng.choice([0, n_wrappers]) if extra else None
+        for k in range(n_wrappers + (1 if extra else 0)):
+            if k == extra_at:
+                mp = gen_rename_map(rng, D.domnames, hist, overlapping=True)
+                elab = DomainRenamer(dict(mp))(elab)
+                ws.append(("renamemap", mp))
+                hist["wrapper:rename"] = hist.get("wrapper:rename", 0) + 1
+                hist["rename_map:around_a_memory"] = hist.get("rename_map:around_a_memory", 0) + 1
+                continue
             kind = rng.choice(["reset", "enable", "rename"])
             hist["wrapper:" + kind] = hist.get("wrapper:" + kind, 0) + 1
+            if kind == "rename" and rename_maps and len(D.domnames) > 1 and rng.random() < 0.6:
+                mp = gen_rename_map(rng, D.domnames, hist)
+                elab = DomainRenamer(dict(mp))(elab)
+                ws.append(("renamemap", mp))
+                continue
             if kind == "rename":
                 src = rng.choice(D.domnames)
                 dst = rng.choice(D.domnames)
@@ -130,33 +263,44 @@ def gen_design(rng, hist):
     # the simple way to keep wrapper lists consistent: build bottom-up with explicit lists
     def build(depth):
         if depth <= 0 or rng.random() < 0.45:
-            items = mk_leaf()
-            elab, ws = wrap(Leaf(items), None)
-            leaf = {"items": items, "stack": list(ws)}
+            leaf = mk_leaf()
+            elab, ws = wrap(Leaf(leaf["items"], leaf["mems"]), [leaf])
+            leaf["stack"] = list(ws)
             D.leaves.append(leaf)
             return elab, [leaf]
         kids, below = [], []
         for _ in range(rng.randint(1, 3)):
             e, ls = build(depth - 1)
             kids.append(e); below += ls
-        own_items = mk_leaf() if rng.random() < 0.5 else []      # a module with logic of its own *and* submodules
-        if own_items:
-            own = {"items": own_items, "stack": []}
+        own = mk_leaf() if rng.random() < 0.5 else None      # a module with logic of its own *and* submodules
+        if own is not None and not own["items"] and not own["mems"]:
+            own = None
+        if own is not None:
+            own["stack"] = []
             D.leaves.append(own); below.append(own)
-        elab, ws = wrap(Node(kids, own_items), None)
+        elab, ws = wrap(Node(kids, own["items"], own["mems"]) if own is not None else Node(kids, []), below)
         for leaf in below:
             leaf["stack"] += ws
         return elab, below
 
     top_child, _ = build(rng.randint(0, 2))
-    D.top = Module()
-    for cd in D.cds:
-        D.top.domains += cd
-    D.top.submodules.dut = top_child
+    D.core = top_child
     if D.split_pending is not None:
         # the other half of a split signal stays undriven
         D.split_pending = None
+    if attach:
+        attach_top(D, D.cds, top_child)
     return D
+
+
+def attach_top(D, declared, core):
+    """a fresh top-level Module that declares the given ClockDomain objects and holds `core` (the generated module
+    tree, or a Fragment made from it earlier) as its only submodule"""
+    D.top = Module()
+    for cd in declared:
+        D.top.domains += cd
+    D.top.submodules.dut = core
+    return D.top
 
 
 def all_signals(D):
@@ -175,8 +319,15 @@ def ser_design(D):
     domidx = {n: k for k, n in enumerate(D.domnames)}
     from .common import ser_ctx
     ctx = ser_ctx([s.shape() for s in sigs])
-    inits = "(inits " + " ".join(str(s.init) for s in sigs) + ")"
-    rl = "(resetless " + " ".join("1" if s.reset_less else "0" for s in sigs) + ")"
+    rows = getattr(D, "rows", {})
+    force_rl = getattr(D, "force_rl", set())
+    for s in sigs:
+        if id(s) in rows:
+            md, i = rows[id(s)]
+            sigidx[("row", id(md), i)] = sigidx[id(s)]
+    row_init = lambda s: Const.cast(rows[id(s)][0].init[rows[id(s)][1]]).value
+    inits = "(inits " + " ".join(str(row_init(s) if id(s) in rows else s.init) for s in sigs) + ")"
+    rl = "(resetless " + " ".join("1" if (id(s) in force_rl or s.reset_less) else "0" for s in sigs) + ")"
     doms = "(doms " + " ".join(
         f"({sigidx[id(cd.clk)]} {cd.clk_edge} {sigidx[id(cd.rst)] if cd.rst is not None else 'none'} {1 if cd.async_reset else 0})"
         for cd in D.cds) + ")"
@@ -188,6 +339,8 @@ def ser_design(D):
             for dom, stmts in f.statements.items():
                 d = "comb" if dom == "comb" else domidx[dom]
                 procs.append(f"(proc {d} (seq {gen_prog.ser_stmts(stmts, sigidx)}))")
+        elif isinstance(f, MemoryInstance):
+            procs.extend(memory_procs(f, sigidx, domidx))
         for sub, _name, _loc in f.subfragments:
             walk(sub)
     walk(frag)
@@ -197,12 +350,43 @@ def ser_design(D):
         for w in leaf["stack"]:
             if w[0] == "rename":
                 ws.append(f"(rename {domidx[w[1]]} {domidx[w[2]]})")
+            elif w[0] == "renamemap":
+                ws.append("(renamemap " + " ".join(f"({domidx[a]} {domidx[b]})" for a, b in w[1]) + ")")
             else:
                 ws.append(f"({w[0]} {domidx[w[1]]} {ser_value(w[2], sigidx)})")
         for dom in ["comb"] + D.domnames:
-            prog = gen_prog.ser_prog(leaf["items"], dom, sigidx)
+            prog = gen_prog.ser_prog(list(leaf["items"]) + list(leaf.get("mem_items", ())), dom, sigidx)
             if prog.strip():
                 d = "comb" if dom == "comb" else domidx[dom]
                 leaves.append(f"(leaf {d} (wrappers {' '.join(ws)}) (prog {prog}))")
     head = f"(c03 {ctx} {inits} {rl} {doms} (actual {' '.join(procs)}) (leaves {' '.join(leaves)})"
     return head, sigs, sigidx
+
+
+def memory_procs(f, sigidx, domidx):
+    """the ports of a MemoryInstance *as amaranth left them after every transformer* (domain, address, data and enable
+    expressions) as processes of the statement model: a write port replaces the addressed row when its enable is true,
+    a synchronous read port captures the addressed row when its enable is true, an asynchronous one shows it"""
+    md = f._data
+    row = [sigidx[("row", id(md), i)] for i in range(md.depth)]
+    out = []
+
+    def sw(test, cases):
+        return f"(switch {ser_value(test, sigidx)} " + " ".join(f'(("{p}") {b})' for p, b in cases) + ")"
+    for p in f._write_ports:
+        n = len(p._addr)
+        body = sw(p._addr, [(format(i, f"0{n}b"), sw(p._en.bool(), [("1", f"(= (sig {row[i]}) {ser_value(p._data, sigidx)})")]))
+                            for i in range(md.depth)])
+        out.append(f"(proc {domidx[p._domain]} (seq {body}))")
+    for p in f._read_ports:
+        n = len(p._addr)
+        body = sw(p._addr, [(format(i, f"0{n}b"), f"(= {ser_value(p._data, sigidx)} (sig {row[i]}))") for i in range(md.depth)])
+        if p._domain == "comb":
+            out.append(f"(proc comb (seq {body}))")
+        else:
+            out.append(f"(proc {domidx[p._domain]} (seq {sw(p._en.bool(), [('1', body)])}))")
+    return out
+
+
+def sig_name(D, s):
+    return getattr(D, "names", {}).get(id(s)) or s.name
